@@ -306,7 +306,7 @@ TIER = ['quick']
 def run_check(pid, tier, seed):
     TIER[0] = tier
     t0 = time.time()
-    work = os.path.join(VERIF, '.work', pid)
+    work = os.path.join(VERIF, '.work', pid + os.environ.get('VERIF_WORK_SUFFIX', ''))      # development: a suffix keeps a second run of the same property apart
     shutil.rmtree(work, ignore_errors=True)
     os.makedirs(work, exist_ok=True)
     shutil.rmtree(os.path.join(VERIF, 'replays', pid), ignore_errors=True)   # replay files describe the current run only
@@ -425,6 +425,11 @@ def finish(pid, tier, seed, t0, runs, results, bres, no_verdict):
             elif b['status'] != 'unsat':
                 no_verdict.append('bounded stand-in %s undecided (%s)' % (b['name'], b['status']))
             continue
+        if b.get('refute_only') and b['status'] not in ('sat', 'unsat'):
+            # falsification probe of a goal whose proof goes through separately checked proof steps: no counter-model found, nothing claimed
+            table.append({'spec': b.get('spec'), 'harness': b['name'], 'case': '', 'backend': 'B:falsification probe (no counter-model within the time limit; not an obligation)', 'solver': '-',
+                          'seconds': round(b.get('seconds', 0), 2), 'obligations': 0, 'discharged': 0})
+            continue
         n_oblig += 1
         if b['status'] == 'unsat':
             n_ok += 1
@@ -445,6 +450,17 @@ def finish(pid, tier, seed, t0, runs, results, bres, no_verdict):
         print('KNOWN-FINDING: property=%s %s -- %s' % (pid, name, txt))
     violations = 0
     replay_paths = []
+    # proof steps (lemmas, algebraic certificates) are not statements of the property: when only proof steps are refuted, the native
+    # replay arbitrates - a failing input makes it a violation, otherwise the proof has to be adapted to the new code (no verdict)
+    def is_proof_step(nm):
+        return 'lemma.' in nm or nm.startswith('lemma') or '.certificate_' in nm
+    if fresh and all(is_proof_step(nm) for nm, _ in fresh):
+        import replay as rp
+        os.makedirs(os.path.join(VERIF, 'replays', pid), exist_ok=True)
+        path0, found0 = rp.make_replay(pid, fresh[0][0], fresh[0][1], seed, native=True)
+        if not found0:
+            no_verdict.append('%d proof step(s) (lemmas / certificates) are refuted on this tree, e.g. %s, but no obligation stating the property is, and the native replay finds no failing input: the proof has to be adapted (replay file %s)' % (len(fresh), fresh[0][0], path0))
+            fresh = []
     if fresh:
         import replay as rp
         os.makedirs(os.path.join(VERIF, 'replays', pid), exist_ok=True)
@@ -512,9 +528,9 @@ def write_evidence(pid, tier, seed, wall, runs, table, n_oblig, n_ok, known_hit,
         'wall_s': round(wall, 2),
         'violations': len(fresh),
     }
-    if os.path.realpath(front.REPO) != '/repo':
+    if os.path.realpath(front.REPO) != '/repo' or os.environ.get('VERIF_WORK_SUFFIX'):
         # development runs against a scratch worktree (VERIF_REPO=...) never overwrite the evidence of /repo
-        json.dump(ev, open(os.path.join(VERIF, '.work', pid, 'evidence.scratch.json'), 'w'), indent=1)
+        json.dump(ev, open(os.path.join(VERIF, '.work', pid + os.environ.get('VERIF_WORK_SUFFIX', ''), 'evidence.scratch.json'), 'w'), indent=1)
         return
     os.makedirs(os.path.join(VERIF, 'evidence'), exist_ok=True)
     json.dump(ev, open(os.path.join(VERIF, 'evidence', pid + '.json'), 'w'), indent=1)
